@@ -381,6 +381,13 @@ func (s *stream) closeAllStreams() {
 	// Because "gocbcore - memdopmap.go - FindOpenStream" is not thread safe.
 	// BTW We cannot use ConcurrentSwissMap either. You know it's concurrent :/
 	if s.streamEndNotSupportedData != nil {
+		// the end of the last stream closed by the previous Close() is reported asynchronously and may have come
+		// after that Close() had finished: its token is still here and would block the first iteration for ever
+		select {
+		case <-s.streamEndNotSupportedData.queue:
+		default:
+		}
+
 		s.streamEndNotSupportedData.ending = true
 		for vbID := s.vbIDRange.Start; vbID <= s.vbIDRange.End; vbID++ {
 			s.streamEndNotSupportedData.queue <- struct{}{}
